@@ -220,3 +220,11 @@ package goja
 //@   loop 5 invariant true [copy-loop]
 //@   loop 6 invariant true [copy-loop]
 //@   loop 7 invariant true [copy-loop]
+
+// The content type check sits between the detached-buffer checks and the element accesses of its
+// callers: it reads the two arrays' kinds and nothing else (in particular it runs no script).
+//@ func checkTypedArrayMixBigInt
+//@   props C17
+//@   requires src != nil && dst != nil
+//@   assigns nothing
+//@ func isBigIntTypedArray pure
